@@ -9,7 +9,7 @@ import Scc.Fun2Core.Lemmas
 namespace Scc.Fun2Core.Sem
 open Scc
 
-variable {G : Fun.Term → Prop} {q : Core.Prog}
+variable {G : Fun.Term → Prop} {q : Core.Prog} {p : Fun.CheckedProgram}
 
 /-! ## arithmetic -/
 
